@@ -55,8 +55,10 @@ CLAIMS = {
                      "(so its single conditional subtraction is canonical), u64 and u32; the inversion chain raises to l-2; every raw construction Scalar{bytes} in the three crates is of a reviewed kind and every pack() receives the output of a reducing kernel; "
                      "from_canonical_bytes' flag depends on is_canonical = ct_eq(self, reduce(self)); integer conversions write the little-endian bytes at offset 0 of a zeroed array",
                 note="partial; relies on A1/A2 and on the constants decided by C12", ref="10.6"),
-    "C04": dict(cat="other", tech="may-write / may-read index analysis of the digit arrays on the interval abstract interpreter (ABSINT)",
-                text="Decides necessary conditions only, NOT that the result equals the sum of s_i*P_i (group arithmetic; stated as not decided): every digit position a recoding must be able to produce is written by some execution "
+    "C04": dict(cat="other", tech="formal-linear-combination abstract domain over the scalar-multiplication routines (LINCOMB) + may-write / may-read index analysis of the digit arrays (ABSINT)",
+                text="Decides necessary conditions only, NOT that the result equals the sum of s_i*P_i (the group law and the numerical exactness of the recodings are stated as not decided): "
+                     "in the linear-combination domain (group operations by their algebraic meaning, symbolic digits, lookup tables computed from their own constructors) variable-base, the five basepoint tables (create + mul_base), vartime double-base, "
+                     "Straus (ct + vartime) and precomputed Straus - serial and AVX2 copies, 15 routines - each return exactly sum 2^(w i) d_i P; every digit position a recoding must be able to produce is written by some execution "
                      "(non_adjacent_form w=5..8: 256; as_radix_16: 64; as_radix_2w w=5..8: ceil(256/w)(+1 for 256)); in every scalar-multiplication routine - serial and AVX2 copies of variable-base, vartime double-base, Straus (both), Pippenger, "
                      "precomputed Straus, the five basepoint-table radices (>=10 routines per configuration) - every digit position the recoder may leave non-zero is read by some execution (index intervals over-approximate, so an uncovered position is "
                      "provably never accessed); every optional_* multiscalar routine, given a non-empty batch whose points are all None, can only return None. Digit ranges fitting the lookup tables are C11's select() obligations",
@@ -107,6 +109,7 @@ m = {
         {"name": "TAINT/ZEROIZE", "path": "lib/eng_taint.py props/C14.py", "serves_properties": ["C10", "C14"], "kind_free_text": "interprocedural taint with transfer summaries and points-to; drop/zeroize field coverage; heap typestate"},
         {"name": "ABSINT", "path": "lib/absint.py lib/absint_models.py lib/eng_absint.py", "serves_properties": ["C01", "C02", "C04", "C11", "C15"], "kind_free_text": "interval abstract interpreter over checked-mode MIR with inductive type invariants"},
         {"name": "EXPCHAIN", "path": "lib/eng_expchain.py", "serves_properties": ["C01", "C02"], "kind_free_text": "monomial abstract domain (exponent vectors) over the addition chains, on the generic MIR interpreter"},
+        {"name": "LINCOMB", "path": "lib/eng_lincomb.py", "serves_properties": ["C04"], "kind_free_text": "formal linear combinations (coefficient x symbolic digit x symbolic point) on the generic MIR interpreter"},
         {"name": "PATH", "path": "lib/mirlib.py lib/pathlib2.py lib/ex.py", "serves_properties": [p for p in ["C03", "C06", "C07", "C08", "C09", "C13", "C16", "C17"] if p in CLAIMS],
          "kind_free_text": "dominance (edge-removal reachability), value-flow slices, expression trees, ORDER, guard implication"},
     ],
